@@ -53,6 +53,11 @@ def configs(tier: str):
             for t in (0, 1, 2):
                 for failures in ('raise', 'ignore'):
                     out.append(default_cfg(N=1, B=B, failures=failures, t=t, offset='sym' if t == 1 else 'zero', entry='solve_period', span_kind=kind))
+    # spans with repeated labels: solve_t works by position; status / iterations change at t only
+    for B in (1, 2):
+        for t in (0, 1, 2, -1):
+            for failures in ('raise', 'ignore'):
+                out.append(default_cfg(N=1, B=B, failures=failures, t=t, offset='zero', span_kind='dup'))
     # strict models
     for B in (0, 1, 2):
         for failures in ('raise', 'ignore'):
